@@ -17,7 +17,7 @@ var c05Weights = core.OpWeights{
 }
 
 func genC05(t *rapid.T, tier string) HistCase {
-	return genHist(t, tier, core.GenOpts{Marshalers: []string{"json", "json", "custom", "customz"}}, c05Weights, 60, 120, 40, 2)
+	return genHist(t, tier, core.GenOpts{Marshalers: []string{"json", "json", "custom", "customz"}, BigOneIn: 12}, c05Weights, 60, 120, 40, 2)
 }
 
 func runC05(c HistCase, o *run.Obs) error {
